@@ -266,6 +266,20 @@ def run_case(case):
         if (chars[0].matrix[4], chars[0].matrix[5]) != (float(ex), float(ey)):
             return Outcome(classes, nt, fail="page %d glyph origin %r expected %r (rotate %d, mediabox %r, point %r); %s" % (
                 i, chars[0].matrix[4:], (float(ex), float(ey)), rot, mb, node["pt"], desc()))
+    # ---- walking the page tree does not change the objects: what getobj returns for a node afterwards (the document of
+    # the PDFPage objects has object caching on) holds the entries written for that node, not the inherited ones
+    if pages:
+        doc = pages[0].doc
+        for num, d in b.objs.items():
+            if isinstance(d, dict) and d.get(b"Type") in (W.N("Page"), W.N("Pages")):
+                want = sorted(k.decode() for k, v in d.items() if v is not None)
+                try:
+                    got = sorted(doc.getobj(num).keys())
+                except Exception as e:
+                    return Outcome(classes, nt, fail="getobj(%d) after the page walk raised %s: %s; %s" % (num, type(e).__name__, e, desc()))
+                if got != want:
+                    return Outcome(classes, nt, fail="after the page walk getobj(%d) has the entries %r, the file defines %r; %s" % (
+                        num, got, want, desc()))
     # ---- the `rotation` option of extract_text_to_fp is added to /Rotate and reduced modulo 360 in the same way
     rot_opt = case.get("rotation", 0)
     if rot_opt and n:
